@@ -608,7 +608,8 @@ class EncodeCatRows(Filter[Iterable[Union[Any,Dense,Sparse]], Iterable[Union[Any
                     for _k in k:
                         o[_k] =  o[_k].as_onehot
 
-        catkeys = list(catkey(first))
+        #lazy rows are neither dict nor list so they must be materialized before they are searched/encoded
+        catkeys = list(catkey(first if isinstance(first,(list,tuple,dict)) else first.copy()))
 
         if not catkeys:
             yield from rows
@@ -616,7 +617,7 @@ class EncodeCatRows(Filter[Iterable[Union[Any,Dense,Sparse]], Iterable[Union[Any
             #cat_cols is list of numbers or list of lists
             is_nums = isinstance(catkeys[0],int)
             for row in rows:
-                row = list(row) if isinstance(row,tuple) else copy(row)
+                row = list(row) if isinstance(row,tuple) else copy(row) if isinstance(row,(list,dict)) else row.copy()
 
                 if is_nums:
                     catset(row,catkeys)
